@@ -34,7 +34,7 @@ let dec_of_n (n : coq_N) : string =
       let (q, r) = BinNat.N.div_eucl n ten in go q (Char.chr (48 + int_of_n r) :: acc) in
     L.iter (Buffer.add_char b) (go n []); Buffer.contents b end
 let z_of_dec (s : string) : coq_Z =
-  if S.length s > 0 && s.[0] = '-' then
+  if S.length s > 0 && (Stdlib.String.get s (0)) = '-' then
     (match n_of_dec (S.sub s 1 (S.length s - 1)) with N0 -> Z0 | Npos p -> Zneg p)
   else (match n_of_dec s with N0 -> Z0 | Npos p -> Zpos p)
 let dec_of_z (z : coq_Z) : string =
@@ -47,14 +47,24 @@ let hexval c = match c with
 let bytes_of_hex (s : string) : coq_N list =
   let n = S.length s / 2 in
   let rec go i acc = if i < 0 then acc else
-    go (i - 1) (bytes_tab.(hexval s.[2*i] * 16 + hexval s.[2*i+1]) :: acc) in
+    go (i - 1) (bytes_tab.(hexval (Stdlib.String.get s (2*i)) * 16 + hexval (Stdlib.String.get s (2*i+1))) :: acc) in
   go (n - 1) []
 let hex_of_bytes (l : coq_N list) : string =
   let b = Buffer.create 64 in
   L.iter (fun x -> Buffer.add_string b (Printf.sprintf "%02x" (int_of_n x))) l;
   Buffer.contents b
-let string_of_coq (l : char list) : string = S.init (L.length l) (L.nth l)
-let coq_of_string (s : string) : char list = L.init (S.length s) (S.get s)
+let char_of_ascii (a : Ascii.ascii) : char =
+  match a with Ascii.Ascii (b0, b1, b2, b3, b4, b5, b6, b7) ->
+    let v b k = if b then 1 lsl k else 0 in
+    Char.chr (v b0 0 + v b1 1 + v b2 2 + v b3 3 + v b4 4 + v b5 5 + v b6 6 + v b7 7)
+let ascii_of_char (c : char) : Ascii.ascii =
+  let n = Char.code c in let b k = (n lsr k) land 1 = 1 in
+  Ascii.Ascii (b 0, b 1, b 2, b 3, b 4, b 5, b 6, b 7)
+let rec string_of_coq (s : String.string) : string =
+  match s with String.EmptyString -> "" | String.String (a, r) -> S.make 1 (char_of_ascii a) ^ string_of_coq r
+let coq_of_string (s : string) : String.string =
+  let r = ref String.EmptyString in
+  for i = S.length s - 1 downto 0 do r := String.String (ascii_of_char (Stdlib.String.get s i), !r) done; !r
 
 let split_ws s = L.filter (fun x -> x <> "") (S.split_on_char ' ' s)
 
@@ -91,7 +101,7 @@ let parse_val (toks : string array) (pos : int ref) : Resp.resp =
   let rec go () =
     let t = toks.(!pos) in incr pos;
     let rest = S.sub t 1 (S.length t - 1) in
-    match t.[0] with
+    match (Stdlib.String.get t (0)) with
     | 'S' -> Resp.Simple (bytes_of_hex rest)
     | 'E' -> Resp.Err (bytes_of_hex rest)
     | 'I' -> Resp.Int (z_of_dec rest)
@@ -145,7 +155,7 @@ let () = register "c10enc" (fun line ->
 
 let () = register "c10int" (fun line ->
   let arg = S.sub line 2 (S.length line - 2) in
-  if line.[0] = 'b' then
+  if (Stdlib.String.get line (0)) = 'b' then
     (match Resp.btoi64 (bytes_of_hex arg) with
      | Datatypes.Coq_inl z -> "ok " ^ dec_of_z z
      | Datatypes.Coq_inr Resp.SyntaxErr -> "err IntSyntax"
@@ -158,7 +168,7 @@ let run_ops (type s) (o : s Reader.ops) (s0 : s) (ops : string list) : string =
   let out = L.map (fun op ->
     let r tag (res, s') = st := s';
       (match res with Reader.Ok bs -> tag ^ ":" ^ hex_of_bytes bs | Reader.Fail e -> tag ^ "!" ^ rerr_name e) in
-    match op.[0] with
+    match (Stdlib.String.get op (0)) with
     | 'P' -> r "p" (let (x, s') = o.Reader.o_peek !st in ((match x with Reader.Ok c -> Reader.Ok [c] | Reader.Fail e -> Reader.Fail e), s'))
     | 'Y' -> r "y" (let (x, s') = o.Reader.o_rbyte !st in ((match x with Reader.Ok c -> Reader.Ok [c] | Reader.Fail e -> Reader.Fail e), s'))
     | 'S' -> let (x, s') = o.Reader.o_rslice !st in st := s';
@@ -194,3 +204,40 @@ let () = register "c10canon" (fun line ->
     let (vs, err) = Codec.decode_all_flat Tables.max_array_len Tables.max_bulk_len (n_of_int (int_of_string bs)) (end_of e) data in
     if err = Reader.EOF && Resp.encode_list (Lazy.force itoa_tab) vs = data then "canon" else "other"
   | _ -> failwith "bad case")
+
+(* ---------------- C17: hot-restart frames and dispatcher ---------------- *)
+let hr_rs = Tables.hr_read_size
+let () = register "c17frame" (fun line ->
+  match S.split_on_char ' ' line with
+  | ["r"; hx] ->
+    (match Frame.read_frame hr_rs (bytes_of_hex hx) with
+     | Frame.FOk (t, d) -> Printf.sprintf "ok %d %s" (int_of_n t) (hex_of_bytes d)
+     | Frame.FErr Frame.InvalidHeader -> "err InvalidHeader"
+     | Frame.FErr Frame.Incomplete -> "err Incomplete"
+     | Frame.FPanic -> "PANIC")
+  | ["s"; t; hx] ->
+    (match Frame.send_frame (n_of_int (int_of_string t)) (bytes_of_hex hx) with
+     | Some f -> hex_of_bytes f | None -> "PANIC")
+  | ["s"; t] ->
+    (match Frame.send_frame (n_of_int (int_of_string t)) [] with
+     | Some f -> hex_of_bytes f | None -> "PANIC")
+  | _ -> failwith "bad c17frame case")
+
+let hr_handle = Frame.handle_child Tables.hr_message_types Tables.hr_dispatch_cases Tables.hr_dispatch_handlers
+    Tables.hr_dispatch_default Tables.hr_handler_names Tables.hr_handler_scripts Tables.hr_ctor_names Tables.hr_ctor_types hr_rs
+
+let () = register "c17disp" (fun line ->
+  let children = S.split_on_char '|' line in
+  let calls = ref [] in
+  let outs = L.map (fun c ->
+    let frames = if c = "" then [] else S.split_on_char ',' c in
+    (* lock step: each write is answered (or not) before the next one *)
+    let replies = L.map (fun f ->
+      let evs = hr_handle [Frame.RdBytes (bytes_of_hex f); Frame.RdEOF] in
+      let rs = L.filter_map (fun e -> match e with
+        | Frame.EvReply (t, d) ->
+          (match Frame.send_frame t d with Some b -> Some (hex_of_bytes b) | None -> Some "PANIC")
+        | Frame.EvCall nm -> calls := string_of_coq nm :: !calls; None) evs in
+      if rs = [] then "noreply" else S.concat "" rs) frames in
+    S.concat "," replies) children in
+  S.concat "|" outs ^ " calls=" ^ S.concat "," (L.rev !calls))
